@@ -197,6 +197,13 @@ def stepRS (st : St) (ts : List String) : St × String :=
       (st, "rs=" ++ optBits (@OmplModel.RS.rsDistance Float OmplModel.RS.rsFix67 st.rho s1 s2) ++ " rsrev=" ++
         optBits (@OmplModel.RS.rsDistance Float OmplModel.RS.rsFix67 st.rho s2 s1))
     | _, _ => (st, "bad-op")
+  | ["bothfixw", a, b, c, d, e, f] =>
+    -- as `bothfix` with ZERO = 1e-9 (short-range form of the same defect, finding F440; model only)
+    match pose? [a, b, c], pose? [d, e, f] with
+    | some s1, some s2 =>
+      (st, "rs=" ++ optBits (@OmplModel.RS.rsDistance Float OmplModel.RS.rsFix67w st.rho s1 s2) ++ " rsrev=" ++
+        optBits (@OmplModel.RS.rsDistance Float OmplModel.RS.rsFix67w st.rho s2 s1))
+    | _, _ => (st, "bad-op")
   | ["both", a, b, c, d, e, f] =>
     match pose? [a, b, c], pose? [d, e, f] with
     | some s1, some s2 =>
